@@ -189,6 +189,14 @@ func runC14(c *Ctx) {
 		}
 		r.Check("C14-B2", fn+": the notification is sent from the armed timer only", "", n == 1 && direct == 0, fmt.Sprintf("%d in timer closures, %d direct", n, direct))
 	}
+	// B2 (no reuse): the worker never reports a checkpoint it did not write in this request: every exit of the worker is
+	// preceded by Save or by recording an error (a directory left over from a crashed attempt is removed, not trusted)
+	if u := c.lit("C14-B2", "rockredis.(*RockDB).backupLoop", an.AnyCall().Where("checkpoint save", func(u *an.Unit, s *flow.Site) bool { return strings.HasSuffix(an.CalleeName(s), "KVCheckpoint.Save") })); u != nil {
+		save := an.AnyCall().Where("checkpoint save", func(u *an.Unit, s *flow.Site) bool { return strings.HasSuffix(an.CalleeName(s), "KVCheckpoint.Save") })
+		r.Order("C14-B2", u, an.Return(), []an.M{save, an.StoreTerm("rsp.err")}, an.OrderOpts{Min: 3})
+		// and an existing directory of the same name is removed before Save writes
+		r.Order("C14-B2", u, save, []an.M{an.Call("os.RemoveAll"), an.Edge("os.IsNotExist(err)")}, an.OrderOpts{Min: 1})
+	}
 	// B2 (directory lock): the checkpoint directory is written under the exclusive lock that IsLocalBackupOK / Restore
 	// take in read mode, so nobody is told "this backup is usable" (or restores it) while it is still being written
 	if u := c.lit("C14-B2", "rockredis.(*RockDB).backupLoop", an.AnyCall().Where("checkpoint save", func(u *an.Unit, s *flow.Site) bool { return strings.HasSuffix(an.CalleeName(s), "KVCheckpoint.Save") })); u != nil {
